@@ -204,7 +204,7 @@ Definition Lex (lx : lexer) : lex_result :=
 
 (* The terminals the parser is given: Lex is called until it returns 0.
    Every call consumes a token of `remaining` or the pending `ioRedirect`, so
-   2 * |tokens| + 1 calls always suffice (proved in Proofs/ShellLex.v). *)
+   2 * |tokens| + 1 calls always suffice (Proofs/ShellLexTotal.v: shell_lex_total). *)
 Inductive lexed : Set :=
 | Lexed (ts : list term)
 | LexedPanic
